@@ -22,6 +22,14 @@ def cause_of(h, seq, tid=None):
 
 def closing_action(h, seq):
     c = [a for a in h.actions if a['call'] < seq < a['seq']]
+    # the record at seq names the OS thread that wrote it; a client call is synchronous on its thread, so the write
+    # belongs to the call on that very thread (or to the engine when there is none)
+    byseq = getattr(h, '_byseq', None)
+    if byseq is None:
+        byseq = h._byseq = {e['seq']: e for e in h.R if e.get('t') in ('state', 'exec') and 'thread' in e}
+    th = (byseq.get(seq) or {}).get('thread')
+    if th is not None and all('thread' in a for a in c):
+        c = [a for a in c if a['thread'] == th]
     # a refused action changes nothing (that is C05's business): prefer the accepted ones; records are pushed
     # after the call returns, so "returns first" is decided among them only
     ok = [a for a in c if a['ok']] or c
